@@ -198,10 +198,10 @@ func TestMSLKeywordsAndInvalidText(t *testing.T) {
 	}
 	// valid C++ / MSL that is not modelled: never an InvalidError
 	for _, c := range []struct{ decl, pre string }{
-		{"", "  auto x = 1;\n"},
+		{"", "  auto x = {1, 2};\n"},
 		{"struct P { int x; };\nint f(thread P* p) { return p->x; }\n", ""},
 		{"", "  uint x = [&]() { return 1u; }();\n"},
-		{"void f(metal::texture2d<float, metal::access::sample> t) { }\n", ""},
+		{"float4 f(metal::texture2d<float, metal::access::sample> t, metal::sampler s) { return t.sample(s, metal::float2(0.5)); }\n", ""},
 		{"", "  long x = 1;\n"},
 		{"", "  uint x = 5000000000;\n"},
 		{"", "  uint x = sizeof(int);\n"},
@@ -221,6 +221,8 @@ func TestMSLKeywordsAndInvalidText(t *testing.T) {
 	}
 	// accepted spellings
 	for _, c := range []struct{ decl, pre string }{
+		{"", "  const auto x = metal::float2(1.0) * 2.0;\n  auto y = x.y + 1;\n  float z = y;\n"},
+		{"void f(metal::texture2d<float, metal::access::sample> t, metal::sampler s) { }\n", ""},
 		{"using namespace metal;\n", "  float3 v = float3(1.0);\n  uint x = uint(max(v.x, 2.0));\n"},
 		{"", "  uint2 v = uint2(1u);\n  half2 h = half2(float2(1.0));\n  unsigned int u = unsigned(3);\n"},
 		{"", "  metal::float2 v = metal::precise::sqrt(metal::float2(4.0)) + metal::fast::sin(metal::float2(0.0));\n"},
